@@ -22,7 +22,11 @@ import (
 	"strings"
 )
 
-func init() { targets["C07SourceHash"] = c07SourceHash }
+func init() {
+	targets["C07SourceHash"] = c07SourceHash
+	targets["C07Provide"] = c07Provide
+	targets["C07Hasher"] = c07Hasher
+}
 
 type shEmit struct {
 	Op           string   `json:"op"` // SrcLoop | ToolLoop
@@ -315,5 +319,366 @@ func c07SourceHash() string {
 		}
 	}
 	b.WriteString("\n] " + coqBool(prog.BuildDepsSorted) + " " + coqBool(prog.InputsSorted) + ".\n")
+	return b.String()
+}
+
+// ------------------------------------------------------------------------------------------------------------------
+// C07Provide: which collection the loop of BuildTarget.provideFor (src/core/build_target.go) ranges over, as a value of
+// `ploop` (Model/C07_Provide.v). The declared types of the fields of core.BuildTarget decide what a range is: a range over
+// a slice-typed field (other.Requires) with a map LOOKUP in the body is PRangeRequires; a range over a map-typed field
+// (target.Provides) with a membership test on the slice is PRangeProvides - translated, not rejected, so that the model
+// walks the map in enumeration order and gen_provide_loop / the order-independence theorem of Proof/C07_Provide.v break.
+// Everything else of provideFor, ProvideFor, isDataFor and recursivelyProvideFor is hand-modelled and matched exactly.
+
+const c07RecursivelyProvideFor = `return func(yield func(BuildLabel) bool) {
+	depTarget := graph.TargetOrDie(dep)
+	ret := depTarget.ProvideFor(dependency)
+	if len(ret) == 1 && ret[0] == dep {
+		ret = depTarget.ProvideFor(target)
+		if len(ret) == 1 && ret[0] == dep {
+			yield(ret[0])
+			return
+		}
+	}
+	for _, r := range ret {
+		if r == dep {
+			if !yield(r) {
+				return
+			}
+		} else {
+			for p := range recursivelyProvideFor(graph, target, dependency, r) {
+				if !yield(p) {
+					return
+				}
+			}
+		}
+	}
+}`
+
+// the kind ("map" | "slice") of a field of struct BuildTarget
+func c07FieldKind(f *ast.File, field string) string {
+	for _, d := range f.Decls {
+		gd, ok := d.(*ast.GenDecl)
+		if !ok || gd.Tok != token.TYPE {
+			continue
+		}
+		for _, sp := range gd.Specs {
+			ts := sp.(*ast.TypeSpec)
+			st, ok := ts.Type.(*ast.StructType)
+			if !ok || ts.Name.Name != "BuildTarget" {
+				continue
+			}
+			for _, fl := range st.Fields.List {
+				for _, n := range fl.Names {
+					if n.Name == field {
+						switch t := fl.Type.(type) {
+						case *ast.MapType:
+							return "map"
+						case *ast.ArrayType:
+							if t.Len == nil {
+								return "slice"
+							}
+						}
+						failShape("BuildTarget.%s is neither a map nor a slice", field)
+					}
+				}
+			}
+		}
+	}
+	failShape("field BuildTarget.%s not found", field)
+	return ""
+}
+
+func c07Provide() string {
+	fset, f := parseFile("src/core/build_target.go")
+	norm := func(n ast.Node) string { return strings.Join(strings.Fields(nodeStr(fset, n)), " ") }
+	fd := findFunc(f, "BuildTarget", "provideFor")
+	body := fd.Body.List
+	want := map[int]string{
+		0: "target.mutex.RLock()",
+		1: "defer target.mutex.RUnlock()",
+		2: "if target.Provides == nil || len(other.Requires) == 0 { return nil, false }",
+		3: "if target.isDataFor(other) { return nil, false }",
+		4: "if other.IsTool(target.Label) { return nil, false }",
+		5: "var ret []BuildLabel",
+		6: "found := false",
+		8: "return ret, found",
+	}
+	if len(body) != 9 {
+		failShape("provideFor: %d statements, expected 9", len(body))
+	}
+	for i, w := range want {
+		if got := norm(body[i]); got != w {
+			failShape("provideFor: statement %d not recognised: %s", i, got)
+		}
+	}
+	rs, ok := body[7].(*ast.RangeStmt)
+	if !ok || rs.Tok != token.DEFINE {
+		failShape("provideFor: statement 7 is not a `for .. := range` loop: %s", norm(body[7]))
+	}
+	sel, ok := rs.X.(*ast.SelectorExpr)
+	if !ok {
+		failShape("provideFor: ranges over %s, which is not a field", norm(rs.X))
+	}
+	recv, ok := sel.X.(*ast.Ident)
+	if !ok {
+		failShape("provideFor: ranges over %s", norm(rs.X))
+	}
+	kind := c07FieldKind(f, sel.Sel.Name)
+	loop := ""
+	switch {
+	case recv.Name == "other" && sel.Sel.Name == "Requires" && kind == "slice":
+		if !isIdent(rs.Key, "_") || rs.Value == nil {
+			failShape("provideFor: loop variables of the range over other.Requires")
+		}
+		v := rs.Value.(*ast.Ident).Name
+		wantBody := "{ if label, present := target.Provides[" + v + "]; present { if ret == nil { ret = make([]BuildLabel, 0, len(other.Requires)) } ret = append(ret, label...) found = true } }"
+		if got := norm(rs.Body); got != wantBody {
+			failShape("provideFor: body of the range over other.Requires not recognised: %s", got)
+		}
+		loop = "PRangeRequires"
+	case recv.Name == "target" && sel.Sel.Name == "Provides" && kind == "map":
+		k, ok1 := rs.Key.(*ast.Ident)
+		v, ok2 := rs.Value.(*ast.Ident)
+		if !ok1 || !ok2 || k.Name == "_" || v.Name == "_" {
+			failShape("provideFor: loop variables of the range over target.Provides")
+		}
+		got := norm(rs.Body)
+		ok := false
+		for _, capExpr := range []string{"len(target.Provides)", "len(other.Requires)"} {
+			if got == "{ if slices.Contains(other.Requires, "+k.Name+") { if ret == nil { ret = make([]BuildLabel, 0, "+capExpr+") } ret = append(ret, "+v.Name+"...) found = true } }" {
+				ok = true
+			}
+		}
+		if !ok {
+			failShape("provideFor: body of the range over the MAP target.Provides not recognised: %s", got)
+		}
+		loop = "PRangeProvides"
+	default:
+		failShape("provideFor ranges over %s (%s), which the translator does not know", norm(rs.X), kind)
+	}
+	if c07FieldKind(f, "Provides") != "map" || c07FieldKind(f, "Requires") != "slice" {
+		failShape("BuildTarget.Provides / Requires are no longer a map / a slice")
+	}
+	cbody := func(recv, name string) []string { return bodyStrings(fset, findFunc(f, recv, name)) }
+	matchBody("BuildTarget.ProvideFor", cbody("BuildTarget", "ProvideFor"), []string{
+		"if p, ok := target.provideFor(other); ok {\n\treturn p\n}", "return []BuildLabel{target.Label}"}, -1)
+	matchBody("BuildTarget.isDataFor", cbody("BuildTarget", "isDataFor"), []string{
+		"for _, data := range other.AllData() {\n\tif label, ok := data.Label(); ok && label == target.Label {\n\t\treturn true\n\t}\n}", "return false"}, -1)
+	ufset, uf := parseFile("src/core/utils.go")
+	matchBody("core.recursivelyProvideFor", bodyStrings(ufset, findFunc(uf, "", "recursivelyProvideFor")), []string{c07RecursivelyProvideFor}, -1)
+
+	var b strings.Builder
+	b.WriteString("(* the loop of BuildTarget.provideFor (src/core/build_target.go): which collection it ranges over *)\n")
+	b.WriteString("From PlzV Require Import Base.Harness Model.C08 Model.C07_Provide.\n")
+	b.WriteString("Definition provide_range : ploop := " + loop + ".\n")
+	return b.String()
+}
+
+// ------------------------------------------------------------------------------------------------------------------
+// C07Hasher: from src/fs/hash.go (a) whether the store into hasher.memo in PathHasher.Hash is guarded by `err == nil`,
+// (b) the rule by which NewPathHasher derives the xattr name from the algorithm, as an `xrule` of Model/C07_Hasher.v
+// (initial suffix; the condition `algo != / == "<lit>"`; the suffix assigned under it; the base name), and from
+// src/core/state.go (c) the algorithms for which NewBuildState creates hashers. Tolerated because the theorems are meant to
+// notice it: an unguarded memo store (memo_guarded = false), any rule of that form (names_distinct is decided by
+// computation on the generated table). Hand-modelled and matched exactly: the rest of Hash, CopyHash, MoveHash,
+// moveOrCopyHash; every xattr.LGet / LSet in the file must name hasher.xattrName.
+
+func c07Hasher() string {
+	fset, f := parseFile("src/fs/hash.go")
+	norm := func(n ast.Node) string { return strings.Join(strings.Fields(nodeStr(fset, n)), " ") }
+
+	// ---- (a) Hash
+	hb := findFunc(f, "PathHasher", "Hash").Body.List
+	prefix := []string{
+		"path = hasher.ensureRelative(path)",
+		"if !recalc { hasher.mutex.RLock() cached, present := hasher.memo[path] hasher.mutex.RUnlock() if present && cached != nil { return cached, nil } else if present { store = false recalc = true } }",
+		"if !PathExists(path) { return nil, fmt.Errorf(\"cannot calculate hash for %s: %s\", path, os.ErrNotExist) }",
+		"hasher.mutex.Lock()",
+		"if pending, present := hasher.wait[path]; present { hasher.mutex.Unlock() <-pending.Ch return pending.Hash, pending.Err }",
+		"pending := &pendingHash{Ch: make(chan struct{})}",
+		"hasher.wait[path] = pending",
+		"hasher.mutex.Unlock()",
+	}
+	if len(hb) < len(prefix)+6 {
+		failShape("PathHasher.Hash: body too short")
+	}
+	for i, w := range prefix {
+		if got := norm(hb[i]); got != w {
+			failShape("PathHasher.Hash: statement %d not recognised: %s", i, got)
+		}
+	}
+	rest := hb[len(prefix):]
+	as, ok := rest[0].(*ast.AssignStmt)
+	if !ok || len(as.Lhs) != 2 || len(as.Rhs) != 1 || norm(as.Rhs[0]) != "hasher.hash(path, store, !recalc, timestamp)" {
+		failShape("PathHasher.Hash: the computation is not `<res>, <err> := hasher.hash(path, store, !recalc, timestamp)`: %s", norm(rest[0]))
+	}
+	res, errv := norm(as.Lhs[0]), norm(as.Lhs[1])
+	switch {
+	case as.Tok == token.DEFINE && res == "result" && errv == "err":
+	case as.Tok == token.ASSIGN && res == "pending.Hash" && errv == "pending.Err":
+	default:
+		failShape("PathHasher.Hash: results of hasher.hash kept in %s, %s", res, errv)
+	}
+	if norm(rest[1]) != "hasher.mutex.Lock()" {
+		failShape("PathHasher.Hash: no lock before the memo store: %s", norm(rest[1]))
+	}
+	guarded := false
+	switch norm(rest[2]) {
+	case "if " + errv + " == nil { hasher.memo[path] = " + res + " }":
+		guarded = true
+	case "hasher.memo[path] = " + res:
+	default:
+		failShape("PathHasher.Hash: memo store not recognised: %s", norm(rest[2]))
+	}
+	tail := []string{"delete(hasher.wait, path)", "hasher.mutex.Unlock()"}
+	if res != "pending.Hash" {
+		tail = append(tail, "pending.Hash = "+res, "pending.Err = "+errv)
+	}
+	tail = append(tail, "close(pending.Ch)", "return "+res+", "+errv)
+	if len(rest[3:]) != len(tail) {
+		failShape("PathHasher.Hash: %d statements after the memo store, expected %d", len(rest[3:]), len(tail))
+	}
+	for i, w := range tail {
+		if got := norm(rest[3+i]); got != w {
+			failShape("PathHasher.Hash: statement after the memo store not recognised: %s (expected %s)", got, w)
+		}
+	}
+	hbody := func(name string) []string { return bodyStrings(fset, findFunc(f, "PathHasher", name)) }
+	matchBody("PathHasher.CopyHash", hbody("CopyHash"), []string{"hasher.moveOrCopyHash(oldPath, newPath, true)"}, -1)
+	matchBody("PathHasher.MoveHash", hbody("MoveHash"), []string{"hasher.moveOrCopyHash(oldPath, newPath, false)"}, -1)
+	matchBody("PathHasher.moveOrCopyHash", hbody("moveOrCopyHash"), []string{
+		"oldPath = hasher.ensureRelative(oldPath)", "newPath = hasher.ensureRelative(newPath)",
+		"hasher.mutex.Lock()", "defer hasher.mutex.Unlock()",
+		"if oldHash, present := hasher.memo[oldPath]; present {\n\thasher.memo[newPath] = oldHash\n\tif !copy && strings.HasPrefix(oldPath, \"plz-out/tmp\") {\n\t\tdelete(hasher.memo, oldPath)\n\t}\n} else if copy {\n\thasher.memo[newPath] = nil\n}"}, -1)
+
+	// ---- (b) NewPathHasher
+	nfd := findFunc(f, "", "NewPathHasher")
+	if len(nfd.Type.Params.List) != 4 {
+		failShape("NewPathHasher: parameters")
+	}
+	algoVar := nfd.Type.Params.List[3].Names[0].Name
+	nb := nfd.Body.List
+	if len(nb) != 3 {
+		failShape("NewPathHasher: %d statements, expected 3", len(nb))
+	}
+	sfxVar := ""
+	sfxOf := func(what, text string) string {
+		switch text {
+		case `""`:
+			return "SfxEmpty"
+		case `"_" + ` + algoVar:
+			return "SfxUnderscoreAlgo"
+		}
+		failShape("NewPathHasher: %s is %s, neither \"\" nor \"_\" + %s", what, text, algoVar)
+		return ""
+	}
+	initSfx := ""
+	switch x := nb[0].(type) {
+	case *ast.DeclStmt:
+		t := norm(x)
+		if !strings.HasPrefix(t, "var ") || !strings.HasSuffix(t, " string") || len(strings.Fields(t)) != 3 {
+			failShape("NewPathHasher: declaration not recognised: %s", t)
+		}
+		sfxVar, initSfx = strings.Fields(t)[1], "SfxEmpty"
+	case *ast.AssignStmt:
+		if x.Tok != token.DEFINE || len(x.Lhs) != 1 || len(x.Rhs) != 1 {
+			failShape("NewPathHasher: first statement not recognised: %s", norm(x))
+		}
+		sfxVar, initSfx = norm(x.Lhs[0]), sfxOf("the initial suffix", norm(x.Rhs[0]))
+	default:
+		failShape("NewPathHasher: first statement not recognised: %s", norm(nb[0]))
+	}
+	ifs, ok := nb[1].(*ast.IfStmt)
+	if !ok || ifs.Init != nil || ifs.Else != nil || len(ifs.Body.List) != 1 {
+		failShape("NewPathHasher: second statement is not a plain if: %s", norm(nb[1]))
+	}
+	cond, ok := ifs.Cond.(*ast.BinaryExpr)
+	if !ok || (cond.Op != token.NEQ && cond.Op != token.EQL) || !isIdent(cond.X, algoVar) {
+		failShape("NewPathHasher: condition not recognised: %s", norm(ifs.Cond))
+	}
+	lit, ok := cond.Y.(*ast.BasicLit)
+	if !ok || lit.Kind != token.STRING {
+		failShape("NewPathHasher: condition does not compare with a string literal: %s", norm(ifs.Cond))
+	}
+	tas, ok := ifs.Body.List[0].(*ast.AssignStmt)
+	if !ok || tas.Tok != token.ASSIGN || len(tas.Lhs) != 1 || len(tas.Rhs) != 1 || norm(tas.Lhs[0]) != sfxVar {
+		failShape("NewPathHasher: body of the if not recognised: %s", norm(ifs.Body))
+	}
+	thenSfx := sfxOf("the suffix assigned under the condition", norm(tas.Rhs[0]))
+	ret := norm(nb[2])
+	const retPre, retPost = "return &PathHasher{ new: hash, memo: map[string][]byte{}, wait: map[string]*pendingHash{}, root: root, useXattrs: useXattrs, xattrName: ", ", algo: algo, }"
+	if !strings.HasPrefix(ret, retPre) || !strings.HasSuffix(ret, retPost) {
+		failShape("NewPathHasher: return statement not recognised: %s", ret)
+	}
+	nameExpr := strings.TrimSuffix(strings.TrimPrefix(ret, retPre), retPost)
+	parts := strings.Split(nameExpr, " + ")
+	if len(parts) != 2 || parts[1] != sfxVar || !strings.HasPrefix(parts[0], `"`) || algoVar != "algo" {
+		failShape("NewPathHasher: xattrName is %s, not \"<base>\" + %s", nameExpr, sfxVar)
+	}
+	base := strings.Trim(parts[0], `"`)
+	// every xattr access in the file names hasher.xattrName
+	nx := 0
+	ast.Inspect(f, func(n ast.Node) bool {
+		c, ok := n.(*ast.CallExpr)
+		if !ok {
+			return true
+		}
+		switch norm(c.Fun) {
+		case "xattr.LGet", "xattr.LSet", "xattr.Get", "xattr.Set", "xattr.LRemove", "xattr.Remove":
+			nx++
+			if len(c.Args) < 2 || norm(c.Args[1]) != "hasher.xattrName" {
+				failShape("fs/hash.go: %s does not name hasher.xattrName", norm(c))
+			}
+		}
+		return true
+	})
+	if nx != 3 {
+		failShape("fs/hash.go: %d xattr accesses, expected 3 (LGet in hash, LSet twice in storeHash)", nx)
+	}
+
+	// ---- (c) the hashers of NewBuildState
+	sfset, sf := parseFile("src/core/state.go")
+	algos := []string{}
+	ast.Inspect(findFunc(sf, "", "NewBuildState"), func(n ast.Node) bool {
+		kv, ok := n.(*ast.KeyValueExpr)
+		if !ok || !isIdent(kv.Key, "hashers") {
+			return true
+		}
+		cl, ok := kv.Value.(*ast.CompositeLit)
+		if !ok {
+			failShape("NewBuildState: hashers is not a composite literal")
+		}
+		for _, e := range cl.Elts {
+			ent, ok := e.(*ast.KeyValueExpr)
+			if !ok {
+				failShape("NewBuildState: entry of hashers")
+			}
+			k, ok := ent.Key.(*ast.BasicLit)
+			call, ok2 := ent.Value.(*ast.CallExpr)
+			if !ok || !ok2 || k.Kind != token.STRING || strings.Join(strings.Fields(nodeStr(sfset, call.Fun)), "") != "fs.NewPathHasher" || len(call.Args) != 4 {
+				failShape("NewBuildState: entry of hashers not recognised: %s", nodeStr(sfset, ent))
+			}
+			a, ok := call.Args[3].(*ast.BasicLit)
+			if !ok || a.Value != k.Value || nodeStr(sfset, call.Args[0]) != "RepoRoot" || nodeStr(sfset, call.Args[1]) != "config.Build.Xattrs" {
+				failShape("NewBuildState: hasher %s is created as %s", k.Value, nodeStr(sfset, call))
+			}
+			algos = append(algos, unquote(k))
+		}
+		return false
+	})
+	if len(algos) < 2 {
+		failShape("NewBuildState: hashers not found")
+	}
+	coqStrs := make([]string, len(algos))
+	for i, a := range algos {
+		coqStrs[i] = "s " + coqString(a)
+	}
+	var b strings.Builder
+	b.WriteString("(* PathHasher.Hash's memo store, NewPathHasher's xattr name (src/fs/hash.go), the hashers of NewBuildState (src/core/state.go) *)\n")
+	b.WriteString("From PlzV Require Import Base.Harness Model.C08 Model.C07_Hasher.\n")
+	b.WriteString("Definition memo_guarded : bool := " + coqBool(guarded) + ".\n")
+	b.WriteString("Definition xattr_rule : xrule := XRule (s " + coqString(base) + ") " + initSfx + " " + coqBool(cond.Op == token.NEQ) + " (s " + coqString(unquote(lit)) + ") " + thenSfx + ".\n")
+	b.WriteString("Definition algos : list str := [" + strings.Join(coqStrs, "; ") + "].\n")
 	return b.String()
 }
